@@ -9,7 +9,8 @@ C16, theorem gaps closed after the second review (gap round):
   for 1 and 2 axes only).
 * `ghost_mode_value_upper`, `ghost_mode_derivative_lower/upper` - the 1-axis interpolant next to a face
   as a function of the imposed value / derivative on BOTH faces (was: lower-face Dirichlet only).
-* `interpolate_to_grid_spec`, `interpolate_to_grid_same_grid`, `..2`, `..3`, `interpolate_to_grid_outside` -
+* `interpolate_to_grid_spec`, `interpolate_to_grid_same_grid`, `..2`, `..3`, `interpolate_to_grid_affine`,
+  `interpolate_to_grid_outside` -
   `ScalarField.interpolate_to_grid` (model `interpToGrid` in `Model/InterpGrid.lean`, tied by the driver handler
   `c16.togrid`): the new field holds the interpolant at the centres of the new cells; to the same grid it is the
   identity (any `eps ≤ 1`, every mode); beyond the source it raises / fills.
@@ -340,6 +341,23 @@ theorem interpolate_to_grid_same_grid3 {eps : K} (he : eps ≤ 1) (ghost : Bool)
   simp only [Function.comp_def, List.zipWith_cons_cons, List.zipWith_nil_right, List.map_cons,
     List.map_nil, interpN]
   exact exact_at_centres3 he ghost fill ax ay az hdx hdy hdz data i j k h0 h1 h2 h3 h4 h5
+
+/-- **`interpolate_to_grid` is exact on affine fields** (1 axis): data `α + β·x(centre)` interpolated to any
+target grid whose cell centres lie in the closed interval between the first and the last source centre gives
+`α + β·x(new centre)` in every new cell -/
+theorem interpolate_to_grid_affine {eps : K} (he : eps ≤ 0) (fill : Option K) (src tgt : Axis K)
+    (hs : 1 ≤ src.size) (hdx : 0 < src.dx) (data : Idx → K) (α β : K)
+    (hd : ∀ i, 0 ≤ i → i < src.size → data [i] = α + β * centre src i)
+    (hin : ∀ i, 0 ≤ i → i < tgt.size →
+      centre src 0 ≤ centre tgt i ∧ centre tgt i ≤ centre src (src.size - 1)) :
+    interpToGrid eps false fill [src] data [tgt]
+      = some ((cells [tgt.size]).map (fun c => α + β * centre tgt (c.headD 0))) := by
+  rw [(interpolate_to_grid_spec eps false fill [src] [tgt] data).1, List.map_map]
+  apply List.map_congr_left
+  intro c hc
+  obtain ⟨i, rfl, h0, h1⟩ := mem_cells1 hc
+  simp only [Function.comp_def, List.zipWith_cons_cons, List.zipWith_nil_right, interpN, List.headD_cons]
+  exact exact_on_affine he fill src hs hdx data α β hd _ (hin i h0 h1).1 (hin i h0 h1).2
 
 /-- **a target grid that reaches beyond the source raises** (no fill value; 1 axis): if the centre of
 some new cell lies outside the source axis the result is the `DomainError`; with a fill value the
@@ -1145,5 +1163,18 @@ example (full : Idx → ℚ) (px py pz : ℚ) :
   insert_conserves_compiled_ghost3_periodic (le_refl 0) per2 per2 per2 (by norm_num [per2])
     (by norm_num [per2]) (by norm_num [per2]) rfl rfl rfl _ full px py pz 5
     (fun _ _ _ _ _ _ _ _ _ => one_ne_zero)
+
+/-- the affine field `1 + 2x` on `ax4` -/
+def aff4 : Idx → ℚ := fun c => match c with | [i] => 1 + 2 * centre ax4 i | _ => 0
+
+/-- interpolated to two cells of width 1/2 starting at 1/2 (new centres 3/4 and 5/4): `1 + 2x` exactly -/
+example : interpToGrid (0:ℚ) false none [ax4] aff4 [⟨2, false, 1/2, 1/2⟩] = some [5/2, 7/2] := by
+  refine (interpolate_to_grid_affine (K := ℚ) (le_refl 0) none ax4 ⟨2, false, 1/2, 1/2⟩
+    (by norm_num [ax4]) (by norm_num [ax4]) aff4 1 2 (fun i _ _ => rfl) ?_).trans (congrArg some ?_)
+  · intro i h0 h1
+    simp only at h1
+    have : i = 0 ∨ i = 1 := by omega
+    rcases this with rfl | rfl <;> norm_num [centre, ax4]
+  · decide +kernel
 
 end PdeVerif.Interp.Examples
